@@ -107,10 +107,85 @@ theorem eqv_refl : ∀ (f : Nat) (a : DJ), a.depth ≤ f → eqv f a a = true :=
       simp only [eqv, Bool.and_eq_true, beq_self_eq_true, true_and]
       simp only [DJ.depth] at h
       have := eqvKeys_refl f ms (fun a ha => ih a (by omega)) ms (getFirst_self ms)
-      exact ⟨this, this⟩
+      refine ⟨this, ?_⟩
+      simp only [keysIn, List.all_eq_true]
+      exact getFirst_self ms
     | _ => simp [eqv, f64Eq]
 
-/-- **DOM equality is symmetric** (the repaired `Object::eq` looks the keys of both objects up) -/
+theorem getFirst_mem (k : List UInt8) (ms : List (List UInt8 × DJ)) (a : DJ) (h : getFirst k ms = some a) : (k, a) ∈ ms := by
+  induction ms with
+  | nil => simp [getFirst] at h
+  | cons m r ih =>
+    obtain ⟨k', v⟩ := m
+    simp only [getFirst] at h
+    split at h
+    · rename_i e; simp at h; subst h; subst e; simp
+    · simp [ih h]
+
+/-- the comparison of one key -/
+def cmpKey (f : Nat) (x y : Option DJ) : Bool :=
+  match x, y with
+  | some a, some b => eqv f a b
+  | none, none => true
+  | _, _ => false
+
+theorem eqvKeys_iff (f : Nat) (ms ns : List (List UInt8 × DJ)) : ∀ ks : List (List UInt8 × DJ),
+    eqvKeys f ks ms ns = true ↔ ∀ p ∈ ks, cmpKey f (getFirst p.1 ms) (getFirst p.1 ns) = true := by
+  intro ks
+  induction ks with
+  | nil => simp [eqvKeys]
+  | cons p rest ih =>
+    obtain ⟨k, v⟩ := p
+    simp only [eqvKeys, Bool.and_eq_true, ih, List.mem_cons, forall_eq_or_imp]
+    constructor
+    · rintro ⟨h1, h2⟩
+      refine ⟨?_, h2⟩
+      unfold cmpKey
+      cases hm : getFirst k ms <;> cases hn : getFirst k ns <;> simp_all
+    · rintro ⟨h1, h2⟩
+      refine ⟨?_, h2⟩
+      unfold cmpKey at h1
+      cases hm : getFirst k ms <;> cases hn : getFirst k ns <;> simp_all
+
+/-- one direction of the symmetry of the object comparison -/
+theorem objEq_swap (f : Nat) (ih : ∀ a b : DJ, eqv f a b = eqv f b a) (ms ns : List (List UInt8 × DJ))
+    (hK : eqvKeys f ms ns ms = true) (hX : keysIn ns ms = true) :
+    eqvKeys f ns ms ns = true ∧ keysIn ms ns = true := by
+  rw [eqvKeys_iff] at hK
+  simp only [keysIn, List.all_eq_true] at hX
+  constructor
+  · rw [eqvKeys_iff]
+    intro p hp
+    -- the key of `p` occurs in `ms`, so the forward comparison covers it
+    have hsome := hX p hp
+    cases hm : getFirst p.1 ms with
+    | none => rw [hm] at hsome; simp at hsome
+    | some a =>
+      have hmem := getFirst_mem p.1 ms a hm
+      have hk := hK (p.1, a) hmem
+      have hk' : cmpKey f (getFirst p.1 ns) (some a) = true := by
+        have e : getFirst (p.1, a).1 ms = some a := hm
+        rw [e] at hk; exact hk
+      cases hn : getFirst p.1 ns with
+      | none => rw [hn] at hk'; simp [cmpKey] at hk'
+      | some b =>
+        rw [hn] at hk'
+        simp only [cmpKey] at hk' ⊢
+        rw [ih a b]; exact hk'
+  · simp only [keysIn, List.all_eq_true]
+    intro p hp
+    have hk := hK p hp
+    have hs := getFirst_self ms p hp
+    cases hm : getFirst p.1 ms with
+    | none => rw [hm] at hs; simp at hs
+    | some a =>
+      rw [hm] at hk
+      cases hn : getFirst p.1 ns with
+      | none => rw [hn] at hk; simp [cmpKey] at hk
+      | some b => simp
+
+/-- **DOM equality is symmetric** (the repaired `Object::eq` also requires every key of the right
+    object to occur in the left one) -/
 theorem eqv_symm : ∀ (f : Nat) (a b : DJ), eqv f a b = eqv f b a := by
   intro f
   induction f with
@@ -131,10 +206,22 @@ theorem eqv_symm : ∀ (f : Nat) (a b : DJ), eqv f a b = eqv f b a := by
           | nil => simp [eqvL]
           | cons y s => simp only [eqvL]; rw [ih x y, ihl s]
       exact this xs ys
-    · -- objects: the two conjuncts swap
+    · -- objects
       rename_i ms ns
-      cases h1 : eqvKeys f ms ns ms <;> cases h2 : eqvKeys f ns ms ns <;> simp [Nat.beq_eq_true_eq, eq_comm]
-      all_goals (first | rfl | (constructor <;> intro h <;> exact h.symm))
+      have hlen : (ms.length == ns.length) = (ns.length == ms.length) := by
+        rw [Bool.beq_comm]
+      rw [hlen]
+      cases hl : (ns.length == ms.length)
+      · simp
+      · simp only [Bool.true_and]
+        cases h1 : (eqvKeys f ms ns ms && keysIn ns ms) <;> cases h2 : (eqvKeys f ns ms ns && keysIn ms ns) <;> try rfl
+        · -- right true, left false: impossible
+          simp only [Bool.and_eq_true] at h2
+          have := objEq_swap f (fun a b => ih a b) ns ms h2.1 h2.2
+          simp [this.1, this.2] at h1
+        · simp only [Bool.and_eq_true] at h1
+          have := objEq_swap f (fun a b => ih a b) ms ns h1.1 h1.2
+          simp [this.1, this.2] at h2
 
 theorem DJ.eq_symm (a b : DJ) : a.eq b = b.eq a := by
   unfold DJ.eq
